@@ -731,3 +731,7 @@ Proof. exact (unsigned_slice_roundtrip_gen true w ns (or_introl eq_refl)). Qed.
 
 Definition go_forms_l :=
   conj lit_prefix_forms (conj lit_legacy_octal (conj digits_val_skips_underscores trim_space_pad)).
+
+From Dials Require Import Text.ParseString.
+Lemma bool_roundtrip_l b : parse_bool (format_bool b) = Ok b.
+Proof. destruct b; reflexivity. Qed.
